@@ -1405,6 +1405,14 @@ func (c *Ctx) jsonArrayOpen(rule string, floor int, rels ...string) {
 						if d := isDec(call, "Token"); d != nil {
 							tokens[d] = append(tokens[d], at{b, i})
 						}
+						// a helper of the module that reads a token from the decoder it is handed
+						if sc := call.Call.StaticCallee(); sc != nil && len(sc.Blocks) > 0 && !call.Call.IsInvoke() {
+							for j, a := range call.Call.Args {
+								if j < len(sc.Params) && readsToken(sc, j, 0, isDec) {
+									tokens[a] = append(tokens[a], at{b, i})
+								}
+							}
+						}
 						if d := isDec(call, "More"); d != nil {
 							mores = append(mores, call)
 							where[call] = at{b, i}
@@ -1430,4 +1438,279 @@ func (c *Ctx) jsonArrayOpen(rule string, floor int, rels ...string) {
 	}
 	run.Count("json_array_loops", n)
 	run.Floor("json_array_loops", floor)
+}
+
+// rowsClosed: every *sql.Rows obtained by a query is closed on every way out of the function that
+// obtained it, except the ways out of the branch taken when the query itself failed: a close
+// (rows.Close or a helper of the module that closes the rows it is handed), deferred or not, or
+// the start of a goroutine whose function defers such a close, dominates every other return.
+// Rows that stay open keep a connection of the pool (and, for SQLite, a read lock) for ever.
+func (c *Ctx) rowsClosed(rule string, floor int, rels ...string) {
+	run := c.Run
+	run.Explanation += " Every *sql.Rows obtained by a query is closed (directly, by a deferred helper, or by the goroutine that reads it) on every way out but the failed query's own."
+	n := 0
+	isRows := func(t types.Type) bool {
+		p, ok := t.(*types.Pointer)
+		if !ok {
+			return false
+		}
+		nm, ok := p.Elem().(*types.Named)
+		return ok && nm.Obj().Name() == "Rows" && nm.Obj().Pkg() != nil && nm.Obj().Pkg().Path() == "database/sql"
+	}
+	// closesArg: the callee closes the rows passed as argument k (directly, one level of helper)
+	var closesArg func(fn *ssa.Function, k, depth int) bool
+	closesArg = func(fn *ssa.Function, k, depth int) bool {
+		if fn == nil || depth > 2 {
+			return false
+		}
+		if fn.Name() == "Close" && fn.Signature.Recv() != nil && isRows(fn.Signature.Recv().Type()) {
+			return k == 0
+		}
+		if len(fn.Blocks) == 0 || k >= len(fn.Params) {
+			return false
+		}
+		for _, b := range fn.Blocks {
+			for _, in := range b.Instrs {
+				var cc *ssa.CallCommon
+				switch x := in.(type) {
+				case *ssa.Call:
+					cc = &x.Call
+				case *ssa.Defer:
+					cc = &x.Call
+				}
+				if cc == nil {
+					continue
+				}
+				for j, a := range cc.Args {
+					if a == ssa.Value(fn.Params[k]) && closesArg(cc.StaticCallee(), j, depth+1) {
+						return true
+					}
+				}
+			}
+		}
+		return false
+	}
+	for _, rel := range rels {
+		pk := c.P.Pkg(rel)
+		if pk == nil {
+			continue
+		}
+		for _, fi := range c.P.Decls {
+			if fi.Pkg != pk || fi.Decl.Body == nil || strings.HasSuffix(c.P.Fset.Position(fi.Decl.Pos()).Filename, "_test.go") {
+				continue
+			}
+			root := c.ssaFunc(fi)
+			if root == nil {
+				continue
+			}
+			for _, fn := range withAnon(root) {
+				for _, b := range fn.Blocks {
+					for _, in := range b.Instrs {
+						call, ok := in.(*ssa.Call)
+						if !ok {
+							continue
+						}
+						res := call.Call.Signature().Results()
+						if res.Len() != 2 || !isRows(res.At(0).Type()) {
+							continue
+						}
+						n++
+						var rowsV, errV ssa.Value
+						if refs := call.Referrers(); refs != nil {
+							for _, r := range *refs {
+								if ex, isEx := r.(*ssa.Extract); isEx {
+									if ex.Index == 0 {
+										rowsV = ex
+									} else {
+										errV = ex
+									}
+								}
+							}
+						}
+						// the values and cells that hold the rows
+						alias := map[ssa.Value]bool{}
+						cells := map[ssa.Value]bool{}
+						if rowsV != nil {
+							alias[rowsV] = true
+							if refs := rowsV.Referrers(); refs != nil {
+								for _, r := range *refs {
+									if st, isSt := r.(*ssa.Store); isSt && st.Val == rowsV {
+										cells[st.Addr] = true
+									}
+								}
+							}
+						}
+						holds := func(v ssa.Value) bool {
+							if alias[v] {
+								return true
+							}
+							if u, isU := v.(*ssa.UnOp); isU && u.Op == token.MUL && cells[u.X] {
+								return true
+							}
+							return false
+						}
+						closesHere := func(cc *ssa.CallCommon) bool {
+							if cc.IsInvoke() {
+								return false
+							}
+							for j, a := range cc.Args {
+								if holds(a) && closesArg(cc.StaticCallee(), j, 0) {
+									return true
+								}
+							}
+							return false
+						}
+						type at struct {
+							b *ssa.BasicBlock
+							i int
+						}
+						var closers []at
+						for _, b2 := range fn.Blocks {
+							for i2, in2 := range b2.Instrs {
+								switch x := in2.(type) {
+								case *ssa.Call:
+									if closesHere(&x.Call) {
+										closers = append(closers, at{b2, i2})
+									}
+								case *ssa.Defer:
+									if closesHere(&x.Call) {
+										closers = append(closers, at{b2, i2})
+									}
+								case *ssa.Go:
+									mc, isMC := x.Call.Value.(*ssa.MakeClosure)
+									if !isMC {
+										continue
+									}
+									cf, _ := mc.Fn.(*ssa.Function)
+									if cf == nil {
+										continue
+									}
+									for k, bind := range mc.Bindings {
+										if !(alias[bind] || cells[bind]) || k >= len(cf.FreeVars) {
+											continue
+										}
+										fv := cf.FreeVars[k]
+										inner := func(v ssa.Value) bool {
+											if v == ssa.Value(fv) && alias[bind] {
+												return true
+											}
+											u, isU := v.(*ssa.UnOp)
+											return isU && u.Op == token.MUL && u.X == ssa.Value(fv) && cells[bind]
+										}
+										// a defer in the goroutine's entry block that closes the rows
+										if len(cf.Blocks) > 0 {
+											for _, in3 := range cf.Blocks[0].Instrs {
+												if d, isD := in3.(*ssa.Defer); isD && !d.Call.IsInvoke() {
+													for j, a := range d.Call.Args {
+														if inner(a) && closesArg(d.Call.StaticCallee(), j, 0) {
+															closers = append(closers, at{b2, i2})
+														}
+													}
+												}
+											}
+										}
+									}
+								}
+							}
+						}
+						// the branch taken when the query failed
+						var failed *ssa.BasicBlock
+						if errV != nil {
+							if refs := errV.Referrers(); refs != nil {
+								for _, r := range *refs {
+									bo, isB := r.(*ssa.BinOp)
+									if !isB || bo.Op != token.NEQ {
+										continue
+									}
+									if brefs := bo.Referrers(); brefs != nil {
+										for _, br := range *brefs {
+											if ifi, isIf := br.(*ssa.If); isIf && len(ifi.Block().Succs) == 2 {
+												failed = ifi.Block().Succs[0]
+											}
+										}
+									}
+								}
+							}
+						}
+						why := ""
+						for _, rb := range fn.Blocks {
+							if len(rb.Instrs) == 0 {
+								continue
+							}
+							if _, isRet := rb.Instrs[len(rb.Instrs)-1].(*ssa.Return); !isRet {
+								continue
+							}
+							if failed != nil && (failed == rb || failed.Dominates(rb)) {
+								continue
+							}
+							if !(b == rb || b.Dominates(rb)) {
+								continue // a return that cannot follow the query
+							}
+							ok := false
+							for _, k := range closers {
+								if k.b == rb || k.b.Dominates(rb) {
+									ok = true
+								}
+							}
+							if !ok {
+								why = "a return at " + c.P.Pos(rb.Instrs[len(rb.Instrs)-1].Pos()) + " is reached with the rows still open"
+								if rb.Instrs[len(rb.Instrs)-1].Pos() == token.NoPos {
+									why = "the function ends with the rows still open"
+								}
+							}
+						}
+						run.Oblige(why == "")
+						if why != "" {
+							c.violate(rule, load.FuncName(fi.Fn), "rows of "+short(call.Call.Value.Name(), 30), call.Pos(), "the rows returned by this query are not closed on every way out: "+why+" (the connection they hold is never given back)")
+						}
+					}
+				}
+			}
+		}
+	}
+	run.Count("sql_row_sets", n)
+	run.Floor("sql_row_sets", floor)
+}
+
+// readsToken: fn calls Token() on its k-th parameter in its entry block or in a block that
+// dominates all its returns (directly or through one more helper).
+func readsToken(fn *ssa.Function, k, depth int, isDec func(*ssa.Call, string) ssa.Value) bool {
+	if depth > 1 || k >= len(fn.Params) {
+		return false
+	}
+	for _, b := range fn.Blocks {
+		for _, in := range b.Instrs {
+			call, ok := in.(*ssa.Call)
+			if !ok {
+				continue
+			}
+			hit := false
+			if d := isDec(call, "Token"); d == ssa.Value(fn.Params[k]) {
+				hit = true
+			}
+			if sc := call.Call.StaticCallee(); !hit && sc != nil && len(sc.Blocks) > 0 && !call.Call.IsInvoke() {
+				for j, a := range call.Call.Args {
+					if a == ssa.Value(fn.Params[k]) && readsToken(sc, j, depth+1, isDec) {
+						hit = true
+					}
+				}
+			}
+			if !hit {
+				continue
+			}
+			all := true
+			for _, rb := range fn.Blocks {
+				if len(rb.Instrs) == 0 {
+					continue
+				}
+				if _, isRet := rb.Instrs[len(rb.Instrs)-1].(*ssa.Return); isRet && !(b == rb || b.Dominates(rb)) {
+					all = false
+				}
+			}
+			if all {
+				return true
+			}
+		}
+	}
+	return false
 }
